@@ -49,6 +49,8 @@ def run(ctx):
         rule_flush_pairing(ctx, "C12.O", fw, "oligocgr::vectorise")
         c11.point_text(ctx, "C12.T", fw, "oligocgr::vectorise", "({},{},{})", 3)
     c03.maps_rules(dep(ctx, "C12", "C03"), "C03")
+    from . import c06
+    c06.reader_deps(ctx, "C12")
     # (x, y) is the chaos-game end point at the requested square size: corner table, centre and constructor of this copy
     c11.table_rule(dep(ctx, "C12", "C11"), "C11.T", c11.MAPS[1])
     c11.ctor_rule(dep(ctx, "C12", "C11"), "C11.C", "composition::oligocgr::OligoCgrComputer::new", ADT)
